@@ -26,7 +26,7 @@ ENTRIES = {
                 "waiter runs, that the waiter gets through only when no guard is still held and, under weak fairness "
                 "of the waiter alone, always gets through once all guards finished dropping; two wrong designs "
                 "(notify before release, arm after the check) are shown to fail. Every generated behaviour for "
-                "1..3 (4) guards is forced on real OS threads through cfg(eigerco_lumina_verif) schedule points "
+                "1..3 guards (quick: 1, 2 and every 6th for 3; thorough: also every 8th of the 628088 for 4 guards) is forced on real OS threads through cfg(eigerco_lumina_verif) schedule points "
                 "inside counter.rs, comparing count and waiter position with the model after each step and "
                 "requiring the real waiter to return. Unforced multi-thread runs (std threads, blocking pool, "
                 "tokio tasks, seeded jitter at the points) and RedbStore::close with abandoned operations still "
@@ -78,8 +78,18 @@ def run(ck):
     with open(cases, "w") as out:
         for n in range(1, nmax + 1):
             cfg = ck.cfg_with("Gen_Counter.cfg", {"N": n}, name=f"Gen_Counter_{n}.cfg")
-            p, _ = ck.tlc_gen("Gen_Counter", cfg, f"cases{n}.ndjson", tag=f"gen{n}", count_stats=False)
-            out.write(open(p).read())
+            p, _ = ck.tlc_gen("Gen_Counter", cfg, f"cases{n}.ndjson", tag=f"gen{n}", count_stats=False, heap="12g")
+            # N = 4 has 628088 behaviours: every 8th is forced; quick tier: every 6th of the 9908 for N = 3
+            # (a forced run costs 3 ms on an idle machine but 30 ms under load); otherwise all of them
+            every = 8 if n >= 4 else (6 if n == 3 and ck.quick else 1)
+            with open(p) as f:
+                for k, line in enumerate(f):
+                    if k % every == 0:
+                        out.write(line)
+            if every > 1:
+                ck.cov["coverage_gaps"].append(f"N={n}: every {every}th generated behaviour forced")
+            import os
+            os.remove(p)
     s = ck.harness(hb, ["replay", "counter", cases], "replay", timeout=3000)
     ck.absorb(s, classify)
     ck.cov["forced_runs_with_drift"] = s.get("extra", {}).get("forced_runs_with_drift")
